@@ -23,7 +23,7 @@ class Contract:
     def __init__(self, id, func, call, params=None, bind=None, requires=(), ref=None, compare=("result", "exc"),
                  props=(), applies=None, assumed=False, known=(), note="", setup=(), ensures=(), raises_only=None,
                  loops=None, inline=(), timeout=None, ghost=None, max_paths=None, use_contracts=True, exc_compare="class",
-                 replay=True, bounded=None, ensures_exc=(), nondet=False, no_entry_check=False, callsite=True):
+                 replay=True, bounded=None, ensures_exc=(), nondet=False, no_entry_check=False, callsite=True, tier="quick"):
         self.id = id
         self.func = func
         self.call = call
@@ -51,6 +51,7 @@ class Contract:
         self.bounded = bounded
         self.nondet = nondet
         self.no_entry_check = no_entry_check
+        self.tier = tier              # "thorough": only verified in the thorough tier
         self.callsite = callsite      # False: never substituted for the callee at call sites
         self.ensures_exc = list(ensures_exc)  # postconditions on exceptional exit (over params and `exc`)
         REGISTRY.append(self)
